@@ -23,6 +23,8 @@ def ob_pixels(tier):
                 for protocol in (("file", "memory") if (n, p) == geos[-1] or tier != "quick" else ("file",)):
                     runs.append(api.pixels(level, n, p, rpc, protocol, seed=n * 7 + p))
     runs.append(api.pixels("1.1", 3, 2, 2, "fileurl"))
+    runs.append(api.pixels("1.5", 4, 3, 3, "rawio"))  # custom filesystem handing out plain binary file objects
+    runs.append(api.pixels("1.1", 3, 2, 10**12, "file"))  # a request size far beyond the file
     # every image of a multi-scan product holds its own pixels, also when the default options find an index written earlier
     runs.append(api.assembly("1.1", pols=("HH", "HV"), scans=("F1", "F2", "F3"), use_cache_cycle=True, pid="WWDR1.1__D"))
     runs.append(api.assembly("1.5", pols=("HH", "HV"), use_cache_cycle=True))
